@@ -95,8 +95,11 @@ def run(model: RepoModel, rep, tier: str):
     if ov is None:
         rep.violation("C07.R1", key, GSS, gss.node.lineno, f"GlobalStmtStates no longer overrides {sched}: the top-down phase never descends into callees")
     else:
+        # by role: a list that the loop over the resolved callees appends callee ids to
+        appended_lists = {c.func.value.id for c in walk_no_nested(ov.node) if isinstance(c, ast.Call) and isinstance(c.func, ast.Attribute)
+                          and c.func.attr == "append" and isinstance(c.func.value, ast.Name)}
         ok = any(isinstance(n, ast.Call) and (call_name(n) or "").endswith("InterruptionData") and any(
-            k.arg == "callee_ids" and isinstance(k.value, ast.Name) and "to_be_analyzed" in k.value.id for k in n.keywords) for n in walk_no_nested(ov.node)) and \
+            k.arg == "callee_ids" and isinstance(k.value, ast.Name) and k.value.id in appended_lists for k in n.keywords) for n in walk_no_nested(ov.node)) and \
             any(isinstance(n, ast.keyword) and n.arg == "interruption_flag" and isinstance(n.value, ast.Constant) and n.value.value is True for n in ast.walk(ov.node))
         (rep.holds if ok else rep.violation)("C07.R1", key, GSS, ov.node.lineno,
                                              "returns P2ResultFlag(interruption_flag=True, InterruptionData(callee_ids=callee_ids_to_be_analyzed, ...))" if ok else
@@ -109,7 +112,7 @@ def run(model: RepoModel, rep, tier: str):
         raise AnalysisError("analyze_frame_stack vanished")
     afs = p3.methods["analyze_frame_stack"]
     key = f"{GS}::analyze_frame_stack::callee frames come from the interruption's callee ids"
-    src_ok = any(isinstance(n, ast.For) and "data.callee_ids" in norm(n.iter) and any(
+    src_ok = any(isinstance(n, ast.For) and isinstance(n.iter, ast.Attribute) and n.iter.attr == "callee_ids" and any(
         isinstance(x, ast.Call) and call_name(x) == "CallSite" for x in ast.walk(n)) for n in walk_no_nested(afs.node))
     frames = [n for n in walk_no_nested(afs.node) if isinstance(n, ast.Call) and (call_name(n) or "").endswith("ComputeFrame")]
     frame_ok = frames and all(any(k.arg == "method_id" and "callee_id" in norm(k.value) for k in c.keywords) and
@@ -132,7 +135,15 @@ def run(model: RepoModel, rep, tier: str):
     key = f"{GS}::init_compute_frame::an initialised callee frame records its call path"
     build = [n for n in walk_no_nested(icf.node) if isinstance(n, ast.Assign) and "call_path" in norm(n.targets[0]) and isinstance(n.value, ast.Call)
              and isinstance(n.value.func, ast.Attribute) and n.value.func.attr in ("add_call", "add_callsite")]
-    args_ok = build and [norm(a) for a in build[0].value.args] == ["last_frame.method_id", "frame.call_stmt_id", "frame.method_id"]
+    FR = icf.params[1]
+    last_vars = {n.targets[0].id for n in walk_no_nested(icf.node) if isinstance(n, ast.Assign) and isinstance(n.targets[0], ast.Name)
+                 and isinstance(n.value, ast.Subscript) and isinstance(n.value.slice, ast.UnaryOp) and isinstance(n.value.slice.operand, ast.Constant)
+                 and n.value.slice.operand.value == 2}
+
+    def _attr_on(e, bases, attr):
+        return isinstance(e, ast.Attribute) and e.attr == attr and isinstance(e.value, ast.Name) and e.value.id in bases
+    args_ok = bool(build) and len(build[0].value.args) == 3 and _attr_on(build[0].value.args[0], last_vars, "method_id") \
+        and _attr_on(build[0].value.args[1], {FR}, "call_stmt_id") and _attr_on(build[0].value.args[2], {FR}, "method_id")
     # every path that returns the frame and passed the `has a caller` test passed add_path
     ret_frame = [n for n in cfg.g.nodes if cfg.kind[n] == "stmt" and isinstance(cfg.stmt[n], ast.Return) and isinstance(cfg.stmt[n].value, ast.Name)
                  and cfg.stmt[n].value.id == icf.params[1]]
@@ -175,21 +186,24 @@ def run(model: RepoModel, rep, tier: str):
         cut = None
         for n in walk_no_nested(ov.node):
             if isinstance(n, ast.If) and isinstance(n.test, ast.BoolOp) and isinstance(n.test.op, ast.Or) and any(isinstance(b, ast.Continue) for b in n.body) \
-                    and any("call_path" in norm(v) or "call_site" in norm(v) for v in n.test.values):
+                    and any("path_manager" in norm(v) or "call_site_analyze_counter" in norm(v) for v in n.test.values):
                 cut = n
         key = f"{GSS}::{sched}::skip reasons"
         if cut is None:
             rep.unknown("C07.R3", key, GSS, ov.node.lineno, "skip test not recognised")
         else:
-            disj = [norm(v) for v in cut.test.values]
-            new = [d for d in disj if d not in KNOWN_SKIP_REASONS]
+            from ..model import canon_code
+            disj = [" ".join(ast.unparse(v).split()) for v in cut.test.values]
+            known_c = {canon_code(k): v for k, v in KNOWN_SKIP_REASONS.items()}
+            new = [d for d in disj if canon_code(d) not in known_c]
             if new:
                 rep.unknown("C07.R3", key, GSS, cut.lineno, f"unrecognised skip reason(s) {new}: not classified")
             else:
-                rep.holds("C07.R3", key, GSS, cut.lineno, f"{len(disj)} disjunct(s), all enumerated: " + "; ".join(KNOWN_SKIP_REASONS[d] for d in disj))
+                rep.holds("C07.R3", key, GSS, cut.lineno, f"{len(disj)} disjunct(s), all enumerated: " + "; ".join(known_c[canon_code(d)] for d in disj))
         # skipping must be per callee (continue), never abandon the remaining callees
         key = f"{GSS}::{sched}::a skipped callee does not end the loop over callees"
-        loops = [n for n in walk_no_nested(ov.node) if isinstance(n, ast.For) and isinstance(n.target, ast.Name) and "callee_id" in n.target.id]
+        loops = [n for n in walk_no_nested(ov.node) if isinstance(n, ast.For) and isinstance(n.iter, ast.Name) and n.iter.id in ov.params
+                 and "callee" in n.iter.id]
         early = [x for l in loops for x in ast.walk(l) if isinstance(x, (ast.Break, ast.Return))]
         if loops and not early:
             rep.holds("C07.R3", key, GSS, loops[0].lineno, "no break/return inside the loops over the resolved callees")
